@@ -398,11 +398,13 @@ def monC07 : ObsMonitor Obs M7 where
           | .ok => some (if r.stale then m else { m with fails := alSet m.fails r.key 0 })
           | .canceled => some m
           | .err =>
+            -- `fails` over-approximates the backoff's count: a failure of a run that a call may have
+            -- replaced may still have been counted (`SetKey(k, true)` on a running routine replaces nothing)
+            let n := (alGet m.fails r.key).getD 0
+            let m := { m with fails := alSet m.fails r.key (n + 1) }
             if r.stale || !m.hasCtx || genOf m r.key r.data != curGen m r.key
                || m.dead.any (fun x => x.1 == r.key && x.2.1 == curGen m r.key) then some m
             else
-              let n := (alGet m.fails r.key).getD 0
-              let m := { m with fails := alSet m.fails r.key (n + 1) }
               match m.retry with
               | some lim => some (if n < lim then { m with owed := (r.key, m.epoch) :: m.owed } else m)
               | none => some m
